@@ -211,9 +211,10 @@ def thorough_extras(pid, ctx):
         extra["seeded_corpus"] = [{"case": r["case"], "detected": r["ok"], "hit": r.get("hit"), "missed": r.get("missed"), "reason": r.get("reason"), "seconds": r["seconds"]} for r in rs]
         # a corpus patch that does not apply means /repo's tree is not the reference tree the corpus was cut against (somebody is
         # trying an edit): that variant cannot be replayed here and says nothing about the checker — it is recorded and skipped
-        skipped = [r["case"] for r in rs if not r["ok"] and "does not apply" in (r.get("reason") or "")]
+        # ... and so does a patch that applies textually but no longer compiles there (it calls something the edit removed)
+        skipped = [r["case"] for r in rs if not r["ok"] and any(x in (r.get("reason") or "") for x in ("does not apply", "does not compile"))]
         if skipped:
-            extra["seeded_corpus_skipped"] = {"reason": "patch does not apply to the current tree", "cases": skipped}
+            extra["seeded_corpus_skipped"] = {"reason": "patch does not apply to / does not compile against the current tree", "cases": skipped}
         missed = [r["case"] for r in rs if not r["ok"] and r["case"] not in skipped]
         if missed:
             extra["selftest_failed"] = "seeded variants not detected: %s" % missed
